@@ -119,14 +119,12 @@ func (ro *Roles) admitVars(paths []*Path) (map[string]string, string) {
 		}
 	}
 	// the ignore-delay parameter: the admission function's bool (or named bool) parameter
-	for i, p := range ro.Admit.Params {
-		if b, ok := p.Type().Underlying().(*types.Basic); ok && b.Kind() == types.Bool {
-			idx := i
-			if ro.Admit.Signature.Recv() != nil {
-				idx = i - 1
-			}
-			vars[fmt.Sprintf("arg%d", idx)] = "ignore"
+	if i := ro.modeParamIdx(); i >= 0 {
+		idx := i
+		if ro.Admit.Signature.Recv() != nil {
+			idx = i - 1
 		}
+		vars[fmt.Sprintf("arg%d", idx)] = "ignore"
 	}
 	// the counter of an inlined counting loop; the list's length is at least the count
 	if ro.Count == nil {
@@ -264,7 +262,7 @@ func (ro *Roles) admissionTable(r *Report, rule, mode string) {
 	bad, n := 0, 0
 	first := ""
 	for _, row := range admitRows() {
-		env := map[string]int64{"count": row.count, "njobs": row.count, "conc": row.conc, "delay": row.delay, "ignore": row.ignore, "strategy": row.strategy, "len": row.length, "limitptr": 1, "limit": row.limit}
+		env := map[string]int64{"count": row.count, "njobs": row.count, "conc": row.conc, "delay": row.delay, "ignore": ro.modeValue(row.ignore == 1), "strategy": row.strategy, "len": row.length, "limitptr": 1, "limit": row.limit}
 		if row.limitNil {
 			env["limitptr"] = 0
 			delete(env, "limit")
@@ -621,7 +619,7 @@ func (ro *Roles) acceptEffects(r *Report, which map[string]bool) {
 		rejected := p.Ret[1] != "nil"
 		// the admission call passes ignore = false
 		if admitAP != "" && which["ignore-false"] {
-			note("accept.ignore-false", fname+": admission call", strings.HasSuffix(admitAP, ",false)"), pos, "the accept function asks the admission decision with ignoreStartDelay = "+admitAP[strings.LastIndex(admitAP, ",")+1:]+": a delayed job can be started by the request itself")
+			note("accept.ignore-false", fname+": admission call", ro.isModeConst(strings.TrimSuffix(admitAP[strings.LastIndex(admitAP, ",")+1:], ")"), false), pos, "the accept function asks the admission decision with ignoreStartDelay = "+admitAP[strings.LastIndex(admitAP, ",")+1:]+": a delayed job can be started by the request itself")
 		}
 		if rejected {
 			if which["rejected-effect-free"] {
@@ -866,6 +864,119 @@ func flagSetLit(l Lit) bool {
 		return !l.Val
 	case l.Atom.Op == "!=" && l.Atom.R == "0":
 		return l.Val
+	}
+	return false
+}
+
+// modeParamIdx: the index (in Params) of the admission function's "ignore the start delay" parameter:
+// its bool parameter, or a parameter of a small integer enum of the module other than the action type.
+func (ro *Roles) modeParamIdx() int {
+	if ro.Admit == nil {
+		return -1
+	}
+	for i, p := range ro.Admit.Params {
+		if b, ok := p.Type().Underlying().(*types.Basic); ok && b.Kind() == types.Bool {
+			return i
+		}
+	}
+	for i, p := range ro.Admit.Params {
+		if n, ok := p.Type().(*types.Named); ok && n.Obj().Pkg() == ro.Root.Pkg && !types.Identical(n, ro.ActionT) {
+			if b, ok := n.Underlying().(*types.Basic); ok && b.Info()&types.IsInteger != 0 {
+				return i
+			}
+		}
+	}
+	return -1
+}
+
+// modeValues decides what the values of the mode parameter MEAN from the admission function itself:
+// a value "ignores" the delay when a delayed job with a free slot gets Start under it, and "respects"
+// it when the same job does not. (A bool named ignoreStartDelay, its negation applyStartDelay and a
+// two-valued enum are all covered; no name is consulted.) ok is false when the parameter has no
+// unique respecting and no unique ignoring value — the table is then evaluated with false=0/true=1.
+func (ro *Roles) modeValues() (respect, ignore int64, ok bool) {
+	if ro.modeMemo != nil {
+		return ro.modeMemo[0], ro.modeMemo[1], ro.modeMemo[2] == 1
+	}
+	ro.modeMemo = &[3]int64{0, 1, 0}
+	i := ro.modeParamIdx()
+	if i < 0 {
+		return 0, 1, false
+	}
+	var cands []int64
+	if b, isB := ro.Admit.Params[i].Type().Underlying().(*types.Basic); isB && b.Kind() == types.Bool {
+		cands = []int64{0, 1}
+	} else {
+		sc := ro.Root.Pkg.Scope()
+		for _, n := range sc.Names() {
+			if c, isC := sc.Lookup(n).(*types.Const); isC && types.Identical(c.Type(), ro.Admit.Params[i].Type()) {
+				if v, exact := constant.Int64Val(c.Val()); exact {
+					cands = append(cands, v)
+				}
+			}
+		}
+	}
+	res := ro.w.EnumPaths(ro.Admit, EnumOpts{Inline: true})
+	if res.Truncated {
+		return 0, 1, false
+	}
+	vars, problem := ro.admitVars(res.Paths)
+	if problem != "" {
+		return 0, 1, false
+	}
+	var resp, ign []int64
+	for _, v := range cands {
+		env := map[string]int64{"count": 0, "njobs": 0, "conc": 1, "delay": 5, "ignore": v, "strategy": 0, "len": 0, "limitptr": 0}
+		sel, prob := selectPaths(res.Paths, vars, env, true)
+		if prob != "" || len(sel) == 0 {
+			return 0, 1, false
+		}
+		starts, other := false, false
+		for _, pe := range sel {
+			if pe.Path.End != "return" || len(pe.Path.Ret) != 1 {
+				continue
+			}
+			if pe.Path.Ret[0] == fmt.Sprint(ro.Actions["Start"]) {
+				starts = true
+			} else {
+				other = true
+			}
+		}
+		switch {
+		case starts && !other:
+			ign = append(ign, v)
+		case other && !starts:
+			resp = append(resp, v)
+		}
+	}
+	if len(resp) == 1 && len(ign) == 1 {
+		ro.modeMemo = &[3]int64{resp[0], ign[0], 1}
+		return resp[0], ign[0], true
+	}
+	return 0, 1, false
+}
+
+// modeValue: the value of the mode parameter that stands for ignore = b.
+func (ro *Roles) modeValue(b bool) int64 {
+	resp, ign, _ := ro.modeValues()
+	if b {
+		return ign
+	}
+	return resp
+}
+
+// isModeConst: the rendered argument s is the constant that stands for ignore = b.
+func (ro *Roles) isModeConst(s string, b bool) bool {
+	want := ro.modeValue(b)
+	switch s {
+	case "false":
+		return want == 0
+	case "true":
+		return want == 1
+	}
+	var v int64
+	if _, err := fmt.Sscan(s, &v); err == nil && fmt.Sprint(v) == s {
+		return v == want
 	}
 	return false
 }
